@@ -269,6 +269,85 @@ fn construct(c: &PCase) -> Caught<Result<PciTransport, VirtioPciError>> {
     }
 }
 
+/// The same `PciRoot` used twice for one function, with the memory BARs moved in between (as
+/// firmware or other code of the OS may do through plain configuration writes): the second
+/// construction must take its windows from the BARs as they are *now*.
+fn check_root_reuse(c: &PCase, st: &mut Stats) -> Result<(), String> {
+    let _b = build(c);
+    let mut root = PciRoot::new(ModelCam);
+    let log0 = with(|w| w.hal.log.len());
+    let first = match guard(|| PciTransport::new::<LHal, _>(&mut root, DF)) {
+        Caught::Ok(Ok(t)) => t,
+        _ => return Ok(()), // not constructible: judged by the main check
+    };
+    // no drop (a drop resets the device through MMIO that is not being served here)
+    std::mem::forget(first);
+    let req1: Vec<(u64, usize)> = with(|w| w.hal.log[log0..].iter().filter_map(|e| if let HalEv::PhysToVirt { paddr, size } = e { Some((*paddr, *size)) } else { None }).collect());
+    // move every allocated memory BAR by its own size (the model's own description of the BARs
+    // says which registers form a BAR)
+    let mut moved: Vec<(u64, u64, u64)> = Vec::new(); // (old address, size, new address)
+    with(|w| {
+        let f = w.pci.as_mut().unwrap().fns.get_mut(&(0, 5, 0)).unwrap();
+        for i in 0..6 {
+            let Expect::Info(BarInfo::Memory { address_type, address, size, .. }) = &_b.exp[i] else { continue };
+            let (addr, size) = (*address, *size);
+            if addr == 0 || size == 0 {
+                continue;
+            }
+            let is64 = matches!(address_type, virtio_drivers::transport::pci::bus::MemoryBarType::Width64);
+            let limit = if is64 { u64::MAX } else { u32::MAX as u64 };
+            let new = match addr.checked_add(size) {
+                Some(n) if n.checked_add(size - 1).map(|e| e <= limit).unwrap_or(false) => n,
+                _ if addr > size => addr - size,
+                _ => continue,
+            };
+            // keep clear of the other BARs
+            let clash = (0..6).any(|k| {
+                k != i && matches!(&_b.exp[k], Expect::Info(BarInfo::Memory { address: a, size: s_, .. }) if *a != 0 && new < a.saturating_add(*s_) && *a < new.saturating_add(size))
+            });
+            if clash {
+                continue;
+            }
+            let lo = f.regs[4 + i];
+            f.regs[4 + i] = (new as u32 & !0xf) | (lo & 0xf);
+            f.bar_orig[i] = f.regs[4 + i];
+            if is64 && i < 5 {
+                f.regs[5 + i] = (new >> 32) as u32;
+                f.bar_orig[i + 1] = f.regs[5 + i];
+            }
+            moved.push((addr, size, new));
+        }
+    });
+    if moved.is_empty() {
+        return Ok(());
+    }
+    let log1 = with(|w| w.hal.log.len());
+    let second = guard(|| PciTransport::new::<LHal, _>(&mut root, DF));
+    let req2: Vec<(u64, usize)> = with(|w| w.hal.log[log1..].iter().filter_map(|e| if let HalEv::PhysToVirt { paddr, size } = e { Some((*paddr, *size)) } else { None }).collect());
+    match second {
+        Caught::Ok(Ok(t)) => std::mem::forget(t),
+        Caught::Ok(Err(_)) => return Ok(()), // (moved BARs may now overlap: judged by the main check)
+        Caught::Panic(p) => return Err(format!("second PciTransport::new on the same root panicked: {}", p.render())),
+        Caught::Escape(e) => return Err(format!("{:?}", e)),
+    }
+    if req1.len() != req2.len() {
+        return Ok(());
+    }
+    for ((p1, s1), (p2, s2)) in req1.iter().zip(req2.iter()) {
+        if let Some((old, _, new)) = moved.iter().find(|(old, size, _)| *p1 >= *old && *p1 - *old < *size) {
+            let want = *p1 - *old + *new;
+            if *p2 != want || s1 != s2 {
+                return Err(format!(
+                    "the BAR at {:#x} was moved to {:#x} between two constructions on the same PciRoot, but the second transport still maps its window at {:#x} (+{}) instead of {:#x}: outside the BAR as it is now",
+                    old, new, p2, s2, want
+                ));
+            }
+        }
+    }
+    st.class("second_construction_after_bar_move");
+    Ok(())
+}
+
 /// Distinct cap slots are required so capabilities do not overlap.
 fn slots_distinct(c: &PCase) -> bool {
     let n = c.caps.len().min(c.slots.len());
@@ -658,6 +737,7 @@ pub fn check(c: &PCase, st: &mut Stats, known: &Known) -> Result<(), String> {
     } else {
         return Err("SomeTransport run could not construct the transport although the direct run did".into());
     }
+    check_root_reuse(c, st)?;
     // statistics
     let b = build(c);
     let mut types = [0u8; 6];
@@ -901,7 +981,7 @@ pub fn run(ctx: &Ctx) -> Report {
         failure,
         info: PartInfo {
             level: "exploration",
-            rule: "proptest over one function's configuration space: vendor/device ids, capability-list bit, acyclic capability lists (vendor capabilities of type 1..5 and unknown, cap_len classes <16/16..19/20/>20, foreign ids, duplicates, any order), bar field 0..255, offset/length from {0, small, size-len, around 2^31, around 2^32, sums that wrap}, multiplier {0,2,4,odd,random}; six BAR slots (unimplemented, I/O, 32-bit, 64-bit incl. sizes up to 2^63, unallocated); aligned and odd mmio_phys_to_virt offsets; served through ConfigurationAccess and MmioCam (CAM/ECAM); then a generated Transport op sequence against a register-level virtio-pci model. Oracle: independent capability re-parser + 128-bit window containment; construction never panics, leaves configuration space unchanged, succeeds on well-formed spaces, and when it succeeds uses exactly the re-parser's windows; all later accesses fall inside them with the standard layout (model faults otherwise); drop resets and polls; SomeTransport::Pci is trace-identical. Device-configuration reads/writes of u8/u16/u32/[u8;6]/8- and 12-byte structs at every offset of windows of 0..64 (thorough: 300) bytes touch exactly the bytes inside the window or fail without an access. Non-trivial = space with >=2 capabilities of one type or a foreign capability before the virtio ones, and a window within 64 bytes of its BAR's end. distinct = capability tuple list + mechanism + op count.",
+            rule: "proptest over one function's configuration space: vendor/device ids, capability-list bit, acyclic capability lists (vendor capabilities of type 1..5 and unknown, cap_len classes <16/16..19/20/>20, foreign ids, duplicates, any order), bar field 0..255, offset/length from {0, small, size-len, around 2^31, around 2^32, sums that wrap}, multiplier {0,2,4,odd,random}; six BAR slots (unimplemented, I/O, 32-bit, 64-bit incl. sizes up to 2^63, unallocated); aligned and odd mmio_phys_to_virt offsets; served through ConfigurationAccess and MmioCam (CAM/ECAM); then a generated Transport op sequence against a register-level virtio-pci model. Oracle: independent capability re-parser + 128-bit window containment; construction never panics, leaves configuration space unchanged, succeeds on well-formed spaces, and when it succeeds uses exactly the re-parser's windows; all later accesses fall inside them with the standard layout (model faults otherwise); drop resets and polls; SomeTransport::Pci is trace-identical; a second construction on the same PciRoot after the memory BARs were moved by plain configuration writes takes its windows from the moved BARs. Device-configuration reads/writes of u8/u16/u32/[u8;6]/8- and 12-byte structs at every offset of windows of 0..64 (thorough: 300) bytes touch exactly the bytes inside the window or fail without an access. Non-trivial = space with >=2 capabilities of one type or a foreign capability before the virtio ones, and a window within 64 bytes of its BAR's end. distinct = capability tuple list + mechanism + op count.",
             assumptions: vec![
                 "cyclic capability lists are not generated (any walker spins on them)".into(),
                 "when the first capability of a type has a reserved bar value (>5) both refusing and skipping it (as the specification tells drivers to) are accepted".into(),
